@@ -15,10 +15,91 @@ import (
 
 type Locker = sync.Locker
 type Map = sync.Map
-type Pool = sync.Pool
 type Cond = sync.Cond
 
 func NewCond(l Locker) *Cond { return sync.NewCond(l) }
+
+// Pool --------------------------------------------------------------------------
+//
+// sync.Pool may hand out any item that was Put before (or a new one) and keeps per-processor caches: which
+// goroutine gets which item is decided by the runtime, outside the scheduler. The shim is one legal Pool: a list
+// shared by all threads, handing out the newest or the oldest item (PoolFIFO) — deterministic either way.
+// Get and Put are scheduling points; the real mutex keeps Put -> Get visible to the race detector.
+
+type Pool struct {
+	New   func() any
+	real  sync.Mutex
+	items []any
+	known bool
+}
+
+var (
+	poolsMu sync.Mutex
+	pools   []*Pool
+)
+
+// ResetPools empties every pool used so far: package-level pools of the code under test would otherwise carry
+// items from one explored execution into the next (no execution may depend on its predecessors).
+func ResetPools() {
+	poolsMu.Lock()
+	for _, p := range pools {
+		p.real.Lock()
+		p.items = nil
+		p.real.Unlock()
+	}
+	poolsMu.Unlock()
+}
+
+func (p *Pool) register() {
+	p.real.Lock()
+	k := p.known
+	p.known = true
+	p.real.Unlock()
+	if !k {
+		poolsMu.Lock()
+		pools = append(pools, p)
+		poolsMu.Unlock()
+	}
+}
+
+// PoolFIFO selects which of the items a Get hands out: the one Put last (false) or the one Put first (true).
+// Both are legal; a scenario is explored under each policy it wants covered.
+var PoolFIFO bool
+
+func (p *Pool) Get() any {
+	p.register()
+	if vsched.Active() {
+		vsched.Point("pool.get", uintptr(unsafe.Pointer(p)), nil)
+	}
+	p.real.Lock()
+	var x any
+	if n := len(p.items); n > 0 && PoolFIFO {
+		x = p.items[0]
+		p.items = append(p.items[:0], p.items[1:]...)
+	} else if n > 0 {
+		x = p.items[n-1]
+		p.items[n-1] = nil
+		p.items = p.items[:n-1]
+	}
+	p.real.Unlock()
+	if x == nil && p.New != nil {
+		x = p.New()
+	}
+	return x
+}
+
+func (p *Pool) Put(x any) {
+	if x == nil {
+		return
+	}
+	p.register()
+	if vsched.Active() {
+		vsched.Point("pool.put", uintptr(unsafe.Pointer(p)), nil)
+	}
+	p.real.Lock()
+	p.items = append(p.items, x)
+	p.real.Unlock()
+}
 
 // Mutex -------------------------------------------------------------------------
 
